@@ -201,7 +201,7 @@ func c04Fixed() []string {
 		";", "';", "'; drop table node; --", "x; drop table node; --", "') or 1=1 --", "' or ''='", "\\'; drop table node; --",
 		"\n", "\r", "\r\n", "'\n'", "a\nb", "a\rb", "x\rdelete from node; --", "'\r'", "\r--", "\r;", "\r\r", "x'\rdelete from node; --", "'\n", "\n'", "-- \n", "\t", "\x0b", "\x0c", "\x08", "\x1b", "\x7f", "\x01\x02\x03\x1f",
 		"\u0085", "\u00a0", "\u2028", "\u2029", "\ufeff", "\u00e9", "\u65e5\u672c\u8a9e", "\U0001f600", "\U0010ffff", "a\u0301", "x\U0001f600'\U0001f600",
-		"%", "_", "%'%", "e'", "E'\\''", "x'", "b'", "n'", "U&'", "::text", "'::text", ")", "(", "))", "]", "[", ",", ".", ":", "?", "->", "->>", "'->>'",
+		"%", "_", "%'%", "e'", "E'\\''", "x'", "b'", "n'", "U&'", "u&\"", "U&'\\0027'", "u", "U", "::text", "'::text", ")", "(", "))", "]", "[", ",", ".", ":", "?", "->", "->>", "'->>'",
 		"\\u0041", "\\n", "\\x", "%s", "%!v", "{", "}", "$", "${", "null", "NULL", "true", "select", "Select", "UserCount", "a b", " ", "  ", "' '", " '",
 		"abc\\", "abc'", "abc\\'", "abc'\\", "abc\\\\", "abc''", "\\abc", "'abc",
 		"insert into traversal_terminal_filter (id) select 1;", "unidirectional_asp_harness('x')",
